@@ -30,7 +30,7 @@ ASSUMPTIONS = [
 NSHARDS = {"quick": 16, "thorough": 16}
 N_SIM = {"quick": 110, "thorough": 3500}
 REQUIRE = {"sim_runs": 1500, "corner:tps1": 50, "corner:tps100000": 30, "corner:one_cpu": 100, "corner:sub_gb": 100,
-           "corner:sub_tick_run": 16, "corner:decimal_triple": 50, "corner:zero_tick_segments": 100, "cli_runs": 16,
+           "corner:sub_tick_run": 16, "corner:decimal_triple": 50, "corner:zero_tick_segments": 100, "cli_runs": 16, "cli_init_runs": 16,
            "sim_runs:vtemplate/single": 30, "sim_runs:overbook/single": 30, "sim_runs:priority-pool/multi": 30,
            "sim_runs:naive/multi": 30, "sim_runs:priority/single": 30, "sim_suspensions": 40}
 
@@ -87,6 +87,14 @@ def cases(tier, seed, shard, nshards):
         yield corner_case(rng)
     for i in range(max(6, N_SIM[tier] // 10)):
         yield _sim.preemption_case(rng, algo=rng.choice(["priority", "priority", "priority-pool"]), oom=rng.random() < 0.5)
+    for i in range(2):
+        c = corner_case(rng)
+        c["_cli_init"] = True
+        c["algo"] = "vtemplate"
+        c["workload"] = {"type": "generator"}
+        c["params"].update({"waiting_seconds_mean": 3 / c["params"]["ticks_per_second"], "num_pipelines": 2, "num_operators": 3,
+                            "cpu_io_ratio": 0.5, "allow_memory_overcommit": False})
+        yield c
     for i in range(2):
         c = corner_case(rng)
         c["_cli"] = True
@@ -154,6 +162,62 @@ def run_cli(case, mon):
             pass
 
 
+_init_counter = [0]
+
+
+def run_cli_init(case, mon):
+    """The documented flow for the starter scheduler: `eudoxia init cfg.toml -s NAME`, then
+    `eudoxia run -i NAME cfg.toml` (the module is imported from the directory of the file)."""
+    import io
+    import sys
+    import shutil
+    import contextlib
+    import tomllib
+    import tomlkit
+    import eudoxia.__main__ as em
+    _init_counter[0] += 1
+    name = f"vstart_{os.getpid()}_{_init_counter[0]}"
+    d = os.path.join(env.VERIF_DIR, ".work", f"c08-init-{os.getpid()}-{_init_counter[0]}")
+    os.makedirs(d, exist_ok=True)
+    cfg = os.path.join(d, "cfg.toml")
+    out = io.StringIO()
+    try:
+        with contextlib.redirect_stdout(out), contextlib.redirect_stderr(out):
+            em.main(["init", cfg, "-s", name])
+        with open(cfg, "rb") as f:
+            params = tomllib.load(f)
+        if params.get("scheduler_algo") != name or not os.path.exists(os.path.join(d, name + ".py")):
+            mon.fail("init-output", f"eudoxia init -s {name} did not produce the scheduler file / setting", params=params)
+            return
+        params.update({k: v for k, v in case["params"].items()})
+        params["scheduler_algo"] = name
+        t = tomlkit.table()
+        t.update(params)
+        with open(cfg, "w") as f:
+            tomlkit.dump(t, f)
+        sys.path.insert(0, d)
+        try:
+            with contextlib.redirect_stdout(out), contextlib.redirect_stderr(out):
+                em.main(["run", "-i", name, cfg])
+        finally:
+            sys.path.remove(d)
+        mon.count("cli_init_runs")
+        if "Simulation completed" not in out.getvalue():
+            mon.fail("cli-no-report", "eudoxia run -i <starter> returned without printing its report", params=params)
+        else:
+            mon.hit({"cli_init": True, "report_head": out.getvalue()[-400:][:200]})
+    except SystemExit as e:
+        mon.fail("run-raised", f"starter scheduler via CLI exited with {e.code}: {out.getvalue()[-300:]}", algo="init-template",
+                 multi_operator_containers=bool(case["params"].get("multi_operator_containers")), exc_type="SystemExit", exc_msg=str(e.code))
+    except Exception as e:
+        import traceback
+        mon.fail("run-raised", f"starter scheduler via CLI raised {type(e).__name__}: {e}", algo="init-template",
+                 multi_operator_containers=bool(case["params"].get("multi_operator_containers")), exc_type=type(e).__name__,
+                 exc_msg=str(e), traceback=traceback.format_exc()[-1500:])
+    finally:
+        shutil.rmtree(d, ignore_errors=True)
+
+
 def run_case(case, mon):
     p = case["params"]
     tps = p["ticks_per_second"]
@@ -170,6 +234,8 @@ def run_case(case, mon):
     if p.get("interactive_prob", 0.3) + p.get("query_prob", 0.1) + p.get("batch_prob", 0.6) != 1:
         mon.count("corner:decimal_triple")
     mon.count("corner:zero_tick_segments", zero_tick_segments(case))
+    if case.get("_cli_init"):
+        return run_cli_init(case, mon)
     if case.get("_cli") and case["workload"]["type"] == "generator":
         return run_cli(case, mon)
     sub = int(p["duration"] * tps) == 0
